@@ -38,7 +38,7 @@ def cases(seed, tier):
         yield {"family": fams[i % len(fams)], "sub": int(rng.integers(0, 2**31)), "volume": (i % 3 == 0)}
     for i in range(2 if tier == "quick" else 12):
         # (the thorough tier goes to 5e6 elements: above 2^22)
-        yield {"family": "big", "sub": int(rng.integers(0, 2**31)), "volume": False, "first": i == 0, "cap": 2 ** 21 + 1 if tier == "quick" else None}
+        yield {"family": "big", "sub": int(rng.integers(0, 2**31)), "volume": False, "first": i == 0, "cap": 2 ** 22 + 5 if tier == "quick" else None}
 
 
 def params_of(obj):
@@ -228,13 +228,13 @@ def run_big(case):
     zlo = z * rng.uniform(0, 1, size=n)
     win = gen.windows(rng, n)
     COL.sample({"family": "big", "n": n, "kw": kw}, limit=3)
-    m = TWO[int(rng.integers(0, len(TWO)))]
-    f = getattr(c, m)
-    probe.big_vs_windows("C11.vector", m + "(scalar, array)", lambda b: f(0.05, b), [np.maximum(z, 0.05)], win)
-    probe.big_vs_windows("C11.vector", m + "(array, scalar)", lambda a: f(a, 5.5), [z], win)
-    probe.big_vs_windows("C11.vector", m + "(array, array)", lambda a, b: f(a, b), [zlo, z], win)
-    m1 = ONE[int(rng.integers(0, len(ONE)))]
-    probe.big_vs_windows("C11.vector", m1 + "(array)", getattr(c, m1), [np.maximum(z, 1e-3)], win)
+    for m in (TWO if case.get("first") else [TWO[int(rng.integers(0, len(TWO)))]]):       # every entry point and form once per run
+        f = getattr(c, m)
+        probe.big_vs_windows("C11.vector", m + "(scalar, array)", lambda b: f(0.05, b), [np.maximum(z, 0.05)], win)
+        probe.big_vs_windows("C11.vector", m + "(array, scalar)", lambda a: f(a, 5.5), [z], win)
+        probe.big_vs_windows("C11.vector", m + "(array, array)", lambda a, b: f(a, b), [zlo, z], win)
+    for m1 in (ONE if case.get("first") else [ONE[int(rng.integers(0, len(ONE)))]]):
+        probe.big_vs_windows("C11.vector", m1 + "(array)", getattr(c, m1), [np.maximum(z, 1e-3)], win)
 
 
 def run_case(case):
